@@ -9,18 +9,18 @@ SPECS = [
          inputs=_A + [("action", "Q")]),
     dict(name="off_unscale", file=_P, qual="BasePolicy.unscale_action", start=r"^return ", end=None, kind="expr", ret="Q",
          inputs=_A + [("scaled_action", "Q")]),
-    dict(name="off_noise_clip", qual="OffPolicyAlgorithm._sample_action", start=r"^scaled_action = np\.clip", end=None, kind="expr", ret="Q",
+    dict(name="off_noise_clip", qual="OffPolicyAlgorithm._sample_action", start=r"^scaled_action = .*action_noise\(\)", end=None, kind="expr", ret="Q",
          inputs=[("scaled_action", "Q"), ("noise", "Q")], subst={"action_noise()": "noise"}),
-    dict(name="off_noise_guard", qual="OffPolicyAlgorithm._sample_action", start=r"^if action_noise is not None", end=None, kind="test",
+    dict(name="off_noise_guard", qual="OffPolicyAlgorithm._sample_action", start=r"^if action_noise\b", end=None, kind="test",
          inputs=[("has_noise", "bool")], subst={"action_noise is not None": "has_noise"}),
-    dict(name="off_use_terminal", qual="OffPolicyAlgorithm._store_transition", start=r"^if done and ", end=None, kind="test",
+    dict(name="off_use_terminal", qual="OffPolicyAlgorithm._store_transition", start=r"^if done\b", end=None, kind="test",
          inputs=[("done", "bool"), ("has_terminal_obs", "bool")],
          subst={"infos[i].get('terminal_observation') is not None": "has_terminal_obs"}),
-    dict(name="off_count", qual="OffPolicyAlgorithm.collect_rollouts", start=r"^self\.num_timesteps \+= ", end=r"^num_collected_steps \+= 1",
+    dict(name="off_count", qual="OffPolicyAlgorithm.collect_rollouts", start=r"^self\.num_timesteps \+= ", end=r"^num_collected_steps \+= ",
          inputs=[("num_timesteps", "Z"), ("num_envs", "Z"), ("num_collected_steps", "Z")],
          subst={"self.num_timesteps": "num_timesteps", "env.num_envs": "num_envs"},
          outputs=[("num_timesteps", "Z"), ("num_collected_steps", "Z")]),
-    dict(name="off_episode_inc", qual="OffPolicyAlgorithm.collect_rollouts", start=r"^num_collected_episodes \+= 1", end=None,
+    dict(name="off_episode_inc", qual="OffPolicyAlgorithm.collect_rollouts", start=r"^num_collected_episodes \+= ", end=None,
          inputs=[("num_collected_episodes", "Z")], outputs=[("num_collected_episodes", "Z")]),
     dict(name="off_learn_guard", qual="OffPolicyAlgorithm.learn", start=r"^while .*total_timesteps", end=None, kind="test",
          inputs=[("num_timesteps", "Z"), ("total_timesteps", "Z")], subst={"self.num_timesteps": "num_timesteps"}),
@@ -28,7 +28,7 @@ SPECS = [
          inputs=[("num_collected_steps", "Z"), ("frequency", "Z")], subst={"train_freq.frequency": "frequency"}),
     dict(name="off_more_episode", file=_UT, qual="should_collect_more_steps", start=r"^return .*num_collected_episodes", end=None, kind="expr", ret="bool",
          inputs=[("num_collected_episodes", "Z"), ("frequency", "Z")], subst={"train_freq.frequency": "frequency"}),
-    dict(name="off_warmup", qual="OffPolicyAlgorithm._sample_action", start=r"^if self\.num_timesteps < learning_starts", end=None, kind="test",
+    dict(name="off_warmup", qual="OffPolicyAlgorithm._sample_action", start=r"^if self\.num_timesteps\b", end=None, kind="test",
          inputs=[("num_timesteps", "Z"), ("learning_starts", "Z"), ("use_sde", "bool"), ("use_sde_at_warmup", "bool")],
          subst={"self.num_timesteps": "num_timesteps", "self.use_sde": "use_sde", "self.use_sde_at_warmup": "use_sde_at_warmup"}),
 ]
